@@ -36,8 +36,11 @@ func (p LLC) Type() string {
 }
 
 func (p LLC) Payload() []byte {
-	if p.Type() == "u" {
+	if t := p.Type(); t == "u" || t == "snap" { // one octet control field (SNAP is the U frame AA AA 03)
 		return p[3:]
+	}
+	if len(p) < 4 { // the frame ends inside the two octet control field
+		return nil
 	}
 	return p[4:]
 }
